@@ -10,7 +10,7 @@ import (
 	"factgen/fg"
 )
 
-func before(a, b int) bool { return a >= 0 && (b < 0 || a < b) }
+func before(a, b int) bool { return a >= 0 && b >= 0 && a < b }
 
 // tmpl canonicalises a Go expression written with placeholder identifiers (bound in env to canonical texts).
 func tmpl(expr string, env map[string]string) string {
@@ -304,18 +304,26 @@ func resyncRechecks(t *Trace) (ok, lockFirst bool, skip, mut, c int) {
 
 // keyOwnedByRunningPod(keyObj, podUid): an error keeps the key (true); true iff some record of the key with another
 // stored uid belongs to a running pod; false otherwise
-func keyOwnedHelper(t *Trace) bool {
+func keyOwnedHelper(t *Trace) (shape, skipsEmptyUid bool) {
 	all := "R.ipam.ByKeyAndIPRanges(P0.KeyInDB,nil)"
 	errG := t.funcGuard([]string{all + "#2!=nil"}, 0, "return true")
-	g, _ := t.loopGuard(func(x, _ string) []string {
-		return tmpls(map[string]string{"X": x}, `X != nil`, `X.PodUid != P1`, `R.podRunning(P0.PodName, P0.Namespace, X.PodUid)`+"")
-	}, func(r string) bool { return r == all+"#1" }, 0, "return true")
+	find := func(extra ...string) int {
+		for _, suffix := range []string{"", "#1"} { // the answer of podRunning is its first result
+			g, _ := t.loopGuard(func(x, _ string) []string {
+				env := map[string]string{"X": x}
+				req := append(tmpls(env, `X != nil`, `X.PodUid != P1`), tmpl(`R.podRunning(P0.PodName, P0.Namespace, X.PodUid)`, env)+suffix)
+				return append(req, tmpls(env, extra...)...)
+			}, func(r string) bool { return r == all+"#1" }, 0, "return true")
+			if g >= 0 {
+				return g
+			}
+		}
+		return -1
+	}
+	g := find(`X.PodUid != ""`) // records without a stored uid are skipped
+	skipsEmptyUid = g >= 0
 	if g < 0 {
-		// the answer of podRunning is its first result
-		g, _ = t.loopGuard(func(x, _ string) []string {
-			return append(tmpls(map[string]string{"X": x}, `X != nil`, `X.PodUid != P1`),
-				tmpl(`R.podRunning(P0.PodName, P0.Namespace, X.PodUid)`, map[string]string{"X": x})+"#1")
-		}, func(r string) bool { return r == all+"#1" }, 0, "return true")
+		g = find()
 	}
 	last := ""
 	for _, e := range t.Events {
@@ -329,7 +337,8 @@ func keyOwnedHelper(t *Trace) bool {
 			lastFree = true
 		}
 	}
-	return errG >= 0 && before(errG, g) && last == "return false" && lastFree
+	shape = errG >= 0 && g >= 0 && errG < g && last == "return false" && lastFree
+	return shape, shape && skipsEmptyUid
 }
 
 func podRunningOrder(t *Trace) bool {
@@ -643,16 +652,20 @@ func facts(trace tracer, bd, rs, fl, fp, pf, ic, ev *fg.Parsed) (string, error) 
 	resOK, resyncLock, cSkip, cMut, cl := resyncRechecks(tRes)
 	fmt.Fprintf(&b, "/-- resync closure: lockPod, re-read ByIP, compare keys, podRunning with the re-read UID - before the first mutation -/\ndef resyncRechecksUnderLock : Bool := %s\n", fg.LeanBool(resOK))
 
-	wkOK := false
+	wkOK, skipsEmpty := false, false
 	if tKo, err := trace(rs, "FloatingIPPlugin", "keyOwnedByRunningPod"); err == nil && cl >= 0 {
 		cOwned := "R.keyOwnedByRunningPod(el(P0.allocatedIPs).keyObj,el(P0.allocatedIPs).fip.PodUid)"
 		rOwned := "R.keyOwnedByRunningPod(P0.KeyObj,R.ipam.ByIP(P0.IP)#1.PodUid)"
 		cKey := tRes.gate(cl, "!"+cOwned, "return")
 		rKey := tRel.gate(0, "!"+rOwned, "return ERR")
-		wkOK = keyOwnedHelper(tKo) && before(cSkip, cKey) && before(cKey, cMut) && cMut >= 0 && tRes.holds(cMut, "!"+cOwned) &&
+		var helper bool
+		helper, skipsEmpty = keyOwnedHelper(tKo)
+		wkOK = helper && before(cSkip, cKey) && before(cKey, cMut) && cMut >= 0 && tRes.holds(cMut, "!"+cOwned) &&
 			before(rRefuse, rKey) && before(rKey, rMut) && rMut >= 0 && tRel.holds(rMut, "!"+rOwned)
 	}
 	fmt.Fprintf(&b, "/-- resync closure and Release: after \"not running\" and before any mutation they leave the key alone while another record of it (other stored uid) belongs to a running pod -/\ndef resyncAndReleaseCheckWholeKey : Bool := %s\n", fg.LeanBool(wkOK))
+
+	fmt.Fprintf(&b, "/-- keyOwnedByRunningPod skips the records of the key that carry no uid (reserved for the key, bound to no pod) -/\ndef keyOwnedSkipsEmptyUid : Bool := %s\n", fg.LeanBool(skipsEmpty))
 
 	tPr, err := trace(rs, "FloatingIPPlugin", "podRunning")
 	if err != nil {
